@@ -442,6 +442,13 @@ def run(ctx):
     # R6: the scanners end a digit run at the first look-ahead answer None; that this answer means "the source ended or
     # failed" - and not "a read was interrupted" or "a refill gave up" - is the read discipline of the reader (C09-R1:
     # single read site, Interrupted retried in place, refill loops leave only on enough data or on request_more() == false)
+    # R7: the digits the scanners add up are the bytes of the source: appended reads, shrinking and the observers keep the
+    # window (a shrink that cuts the buffered look-ahead and refills it with zeros ends a digit run early): C02-R3/R4/R7
+    from . import c02
+    r7 = ctx.rule("C13-R7", "the bytes the scanners read are the bytes of the source: reads are appended to the window, shrinking keeps it, the observers index it at the cursor (shared with C02-R3/R4/R7)", floor=10)
+    c02.run_r3(ctx, r7)
+    c02.run_r4(ctx, r7)
+    c02.run_r7(ctx, r7)
     from .c09 import run_r1 as c09_r1
     r6 = ctx.rule("C13-R6", "a None answer of the look-ahead, at which the scanners end the run, is the end of the source: Interrupted is retried inside request_more, refills give up only at the end or on an error (shared with C09-R1)", floor=8)
     c09_r1(ctx, r6)
